@@ -299,5 +299,7 @@ def run(chk):
 
     from verif import fallthrough
     fallthrough.run(chk, "C08", floor=4)
+    from verif import argorder
+    argorder.run(chk, "C08", floor=65)
 
     chk.assumptions += ["header widths are joined with the writer via rules/C07.header_sums (T-agree between modules)"]
